@@ -87,6 +87,7 @@ func vKey(b byte) *ecdsa.PrivateKey {
 type vPal struct {
 	dids    []string // true plaintext participant list ("" entries are not produced)
 	ciphers []int    // cipher ids, one per ciphertext in the header
+	mixed   bool     // the header reuses entries of another transaction: `dids` is what the entries the AUTHOR added decrypt to
 }
 
 type vCipher struct {
@@ -645,6 +646,8 @@ type vPacket struct {
 	kind    string
 	canon   string
 	ibltSet map[hash.SHA256Hash]bool // for TransactionSet: the refs the sender's IBLT was built from
+	env     *Envelope                // the POINTER handed to Send: the real connection only queues it, marshalling happens later
+	changed bool
 }
 
 type vLeak struct {
@@ -661,6 +664,7 @@ type vLeak struct {
 	Allowed  bool     `json:"allowed"`
 	RefTx    int      `json:"ref_tx"` // for TransactionPayload messages: the transaction the reply is for (-1 unknown)
 	RefPal   []string `json:"ref_pal"`
+	When     string   `json:"when"` // "send" = bytes at Send time; otherwise the bytes the queued message marshals to LATER
 }
 
 type vSim struct {
@@ -681,6 +685,7 @@ type vSim struct {
 	injected    map[hash.SHA256Hash]bool // refs of invalid transactions shown to any node
 	deliveries  int
 	restartAt   map[int]int // fair-suffix round -> node to restart before it
+	changed     []string    // queued messages whose bytes changed between Send and the moment the stream writes them
 	oversize    []string    // messages the real senders produced that exceed the gRPC message size limit
 	goid        string
 	asyncCh     chan vAsyncReq
@@ -812,13 +817,24 @@ func (s *vSim) send(src, dst int, env *Envelope) error {
 		text = strings.Replace(text, "%IBLT%", d, 1)
 	}
 	pk.canon = fmt.Sprintf("m%d:%d>%d:%s", pk.id, src, dst, text)
-	// C15 oracle: scan the wire bytes of EVERY envelope for private payload bytes
+	pk.env = env
+	s.scanLeaks(pk, wire, "send")
+	s.sent = append(s.sent, pk)
+	s.pending = append(s.pending, pk.id)
+	s.curSent = append(s.curSent, pk)
+	return nil
+}
+
+// C15 oracle: scan the wire bytes of EVERY envelope for private payload bytes
+func (s *vSim) scanLeaks(pk *vPacket, wire []byte, when string) {
+	src, dst, kind, env := pk.src, pk.dst, pk.kind, pk.env
 	for idx, canary := range s.u.canaries {
 		if bytes.Contains(wire, canary) {
 			c := s.nodes[src].conns[dst]
 			t := s.u.txs[idx]
+			pal := s.decryptedBy(src, t)
 			onList := func(d string) bool {
-				for _, x := range t.pal.dids {
+				for _, x := range pal {
 					if x == d && d != "" {
 						return true
 					}
@@ -832,18 +848,56 @@ func (s *vSim) send(src, dst int, env *Envelope) error {
 				if rt := s.u.byRef[hash.FromSlice(m.TransactionRef)]; rt != nil {
 					refTx = rt.idx
 					if rt.pal != nil {
-						refPal = rt.pal.dids
+						refPal = s.decryptedBy(src, rt)
 					}
 				}
 			}
 			s.leaks = append(s.leaks, vLeak{Scenario: s.sc.Name, Msg: pk.id, Kind: kind, Src: src, Dst: dst, Tx: idx, PeerAuth: c.peer.Authenticated,
-				PeerDid: c.peer.NodeDID.String(), SrcDid: s.nodes[src].cfg.Did, Pal: t.pal.dids, Allowed: allowed, RefTx: refTx, RefPal: refPal})
+				PeerDid: c.peer.NodeDID.String(), SrcDid: s.nodes[src].cfg.Did, Pal: pal, Allowed: allowed, RefTx: refTx, RefPal: refPal, When: when})
 		}
 	}
-	s.sent = append(s.sent, pk)
-	s.pending = append(s.pending, pk.id)
-	s.curSent = append(s.curSent, pk)
+}
+
+// the participant list as the SENDING node decrypts it from the header (what the property speaks about). For headers whose
+// entries all carry the same list this is the transaction's list; headers that mix copied entries of other transactions
+// with own entries decrypt to different lists at different nodes
+func (s *vSim) decryptedBy(node int, t *vTx) []string {
+	if !t.pal.mixed {
+		return t.pal.dids
+	}
+	cfg := s.nodes[node].cfg
+	if cfg.Did == "" || !cfg.Resolvable {
+		return nil
+	}
+	for _, cid := range t.pal.ciphers {
+		for _, k := range cfg.Kaks {
+			if !k.Held {
+				return nil
+			}
+			if c := s.u.ciphers[cid]; c.kid == k.Kid && c.kid != "" {
+				return c.plain
+			}
+		}
+	}
 	return nil
+}
+
+// what the sender goroutine of the real connection does LATER with the queued pointer: marshal it. The bytes must be the
+// bytes the message had when the handler called Send
+func (s *vSim) lateMarshal(pk *vPacket, when string) []byte {
+	late, err := proto.Marshal(pk.env)
+	if err != nil {
+		panic(err)
+	}
+	if !bytes.Equal(late, pk.wire) {
+		if !pk.changed {
+			pk.changed = true
+			_, now := s.canon(pk.src, pk.env)
+			s.changed = append(s.changed, fmt.Sprintf("%s became %s (%s)", pk.canon, now, when))
+		}
+		s.scanLeaks(pk, late, when)
+	}
+	return late
 }
 
 func (s *vSim) sentLine() string {
@@ -1245,7 +1299,7 @@ func (s *vSim) exec(op *vOp) {
 				break
 			}
 		}
-		line = s.receive(op, pk.src, pk.dst, pk.wire, pk.ibltSet)
+		line = s.receive(op, pk.src, pk.dst, s.lateMarshal(pk, "written-to-stream-later"), pk.ibltSet)
 	case "inject":
 		env := s.buildMsg(op.Msg)
 		wire, err := proto.Marshal(env)
@@ -1357,6 +1411,7 @@ func (s *vSim) startScenario(sc vScenario, dir string) {
 	s.curSent = nil
 	s.restartAt = nil
 	s.oversize = nil
+	s.changed = nil
 	s.deliveries = 0
 	grpc.MaxMessageSizeInBytes = sc.MaxMsg
 	_ = os.MkdirAll(dir, 0o755)
@@ -1460,6 +1515,7 @@ type vVerdict struct {
 	Features     []string `json:"features"`
 	PostTraffic  int      `json:"post_traffic"`
 	Oversize     []string `json:"oversize"`
+	Changed      []string `json:"changed"`
 }
 
 // fair suffix: expire stale conversations, then loss-free gossip rounds in every direction until all
@@ -1497,7 +1553,12 @@ func (s *vSim) fairSuffix(maxRounds int, expireEvery int) (rounds int) {
 
 func (s *vSim) verdict(kind string, firstOp int, rounds, maxRounds, startDiff int, startSets []map[hash.SHA256Hash]bool, feats []string) vVerdict {
 	v := vVerdict{Scenario: s.sc.Name, Kind: kind, FirstOp: firstOp, LastOp: s.out.nOps - 1, Rounds: rounds, MaxRounds: maxRounds, StartDiff: startDiff,
-		Deliveries: s.deliveries, InjectedSeen: len(s.injected), Features: feats, Oversize: append([]string{}, s.oversize...), Shrunk: []string{}, InvalidIn: []string{}, NotUnion: []string{}}
+		Deliveries: s.deliveries, InjectedSeen: len(s.injected), Features: feats, Oversize: append([]string{}, s.oversize...), Changed: []string{}, Shrunk: []string{}, InvalidIn: []string{}, NotUnion: []string{}}
+	// whatever is still queued gets written to its stream eventually (a peer can keep the window open by not reading)
+	for _, id := range s.pending {
+		s.lateMarshal(s.sent[id], "still-queued-at-end")
+	}
+	v.Changed = append(v.Changed, s.changed...)
 	union := map[hash.SHA256Hash]bool{}
 	listings := make([]map[hash.SHA256Hash]bool, len(s.nodes))
 	for i, n := range s.nodes {
